@@ -69,7 +69,7 @@ func transfer(c *testchain.Chain, from int, salt uint64, pad int) *tx.Transactio
 		BlockRef(tx.NewBlockRef(0)).
 		Expiration(math.MaxUint32 - 1).
 		GasPriceCoef(0).
-		Gas(21000 + 68*uint64(pad) + 50000).
+		Gas(21000 + 5*uint64(pad) + 30000).
 		Nonce(salt).
 		Clause(cl).
 		Build()
